@@ -281,104 +281,7 @@ fn structural_mutations(syms: &[Sym], style: u8, f: &mut dyn FnMut(Mutated) -> b
     }
 }
 
-pub struct Verdict {
-    pub malformed: Option<&'static str>,
-    pub unspecified: bool,
-    pub closed_early: bool,
-}
-
-/// The oracle for one (possibly mutated) byte stream fed to handle() in one piece.
-pub fn check_bytes(
-    svc: &varlink::VarlinkService,
-    originals: &HashMap<Vec<u8>, (Sym, usize)>,
-    bytes: &[u8],
-    where_: &str,
-) -> Result<Verdict, Fail> {
-    let run = run_chunks(svc, &[bytes]);
-    if let Some(p) = &run.panicked {
-        return Err(Fail::new(format!("{}/panic", where_), format!("handle() panicked: {}", p)));
-    }
-    judge(originals, bytes, &run.out, run.err.is_some(), Some(&run.tail), where_)
-}
-
-/// Judge observed reply bytes for an input stream. `closed` = the service ended the connection
-/// (in memory: handle() returned Err).
-pub fn judge(
-    originals: &HashMap<Vec<u8>, (Sym, usize)>,
-    bytes: &[u8],
-    out: &[u8],
-    closed: bool,
-    tail: Option<&Vec<u8>>,
-    where_: &str,
-) -> Result<Verdict, Fail> {
-    let replies = split_replies(where_, out)?;
-    for r in &replies {
-        if let Err(e) = reply_shape(r) {
-            return Err(Fail::new(format!("{}/malformed-reply", where_), e));
-        }
-    }
-    let mut syms = vec![];
-    let mut exps = vec![];
-    let mut malformed = None;
-    let mut unspecified = false;
-    let last_nul = bytes.iter().rposition(|b| *b == 0).map(|p| p + 1).unwrap_or(0);
-    let mut start = 0usize;
-    while start < last_nul {
-        let end = start + bytes[start..].iter().position(|b| *b == 0).unwrap();
-        let piece = &bytes[start..end];
-        let with_nul = &bytes[start..=end];
-        start = end + 1;
-        match classify(piece) {
-            Class::Malformed(why) => {
-                malformed = Some(why);
-                break;
-            }
-            Class::Unspecified(_) => {
-                unspecified = true;
-                break;
-            }
-            Class::WellFormed(v) => {
-                if let Some((s, i)) = originals.get(with_nul) {
-                    syms.push(*s);
-                    exps.push(expect(*s, *i));
-                } else {
-                    let more = v["more"] == json!(true);
-                    let oneway = v["oneway"] == json!(true);
-                    syms.push(Sym { kind: Kind::Echo, flag: if more { Flag::More } else if oneway { Flag::Oneway } else { Flag::None } });
-                    exps.push(Exp { oneway, conts: vec![], any_conts: more, fin: Fin::Any, may_close_instead: true, upgrades: false });
-                    if v["method"] == "org.verif.test.Upgrade" {
-                        unspecified = true;
-                        break;
-                    }
-                }
-            }
-        }
-    }
-    if unspecified {
-        // nothing can be aligned past an unspecified piece; the absence of a panic was checked
-        return Ok(Verdict { malformed: None, unspecified: true, closed_early: closed });
-    }
-    let end = if closed { End::Closed } else { End::Open };
-    let st = check_replies(where_, &syms, &exps, &replies, end)?;
-    if let Some(why) = malformed {
-        if !closed {
-            return Err(Fail::new(
-                format!("{}/malformed-accepted", where_),
-                format!("a malformed message ({}) did not end the connection: the handler returned Ok after {} replies", why, replies.len()),
-            ));
-        }
-    } else if !closed {
-        if let Some(t) = tail {
-            if t[..] != bytes[last_nul..] {
-                return Err(Fail::new(
-                    format!("{}/tail", where_),
-                    format!("unprocessed tail is {} bytes, the stream has {} bytes after its last complete message", t.len(), bytes.len() - last_nul),
-                ));
-            }
-        }
-    }
-    Ok(Verdict { malformed, unspecified: false, closed_early: st.closed_early })
-}
+pub use vl_model::oracles::{check_bytes, judge};
 
 fn originals_of(st: &Stream) -> HashMap<Vec<u8>, (Sym, usize)> {
     let mut m = HashMap::new();
@@ -804,6 +707,22 @@ fn child_main(args: &Args) -> ! {
     ctx.bump_sample_cap(4);
     let n = ctx.tier.pick(300, 5_000);
     listen_part(&mut ctx, n);
+    if ctx.tier == Tier::Thorough && !ctx.failed() {
+        let mut seeds: Vec<Vec<u8>> = vec![];
+        for (syms, style) in corpus() {
+            seeds.push(build_stream(&syms, |i| crate::c01::style_of(style, i)).bytes);
+        }
+        if let Some(bytes) = vl_model::fuzz::campaign(&mut ctx, "c06_handle", 2_000_000, &seeds, 4096) {
+            let (svc, _p) = t_service();
+            let none = HashMap::new();
+            match pt::guard(|| check_bytes(&svc, &none, &bytes, "handle").map(|_| ())) {
+                Err(f) => {
+                    ctx.violation(&f.key, &f.what, "c06-mem", json!({"op": "libfuzzer", "bytes_hex": hex(&bytes), "bytes_len": bytes.len(), "requests": [], "style": 0}));
+                }
+                Ok(()) => ctx.inconclusive("libFuzzer reported a crash that the oracle does not reproduce in-process"),
+            }
+        }
+    }
     ctx.exhaustive = Some(false);
     ctx.finish()
 }
